@@ -7,7 +7,9 @@ from props.base import prog_case
 
 RULE = ("(a) exhaustive: chains of length 1..3 (quick) / 1..4 (thorough), with and without else, every truth assignment, "
         "placed in 9 nesting templates (top level, block, loop body, function body, inside a taken / not-taken branch of an "
-        "outer chain, after a history prefix of else-less ifs, early returns and breaks); (b) random structured programs. "
+        "outer chain, after a history prefix of else-less ifs, early returns and breaks); (a2) break / continue / return taken from each branch kind of an inner chain in a loop "
+        "(directly or in a called function) inside each branch kind of an outer chain that still has branches after it; "
+        "(b) random structured programs. "
         "Output and end status are compared with the Lean model and with the structured big-step semantics of the tree. "
         "Non-trivial: the chain has an else or more than one condition.")
 ASSUMPTIONS = ["generated programs terminate; loops are counter-guarded"]
@@ -71,6 +73,47 @@ def cases(rng, tier, stats):
     stats["exhaustive_chain_cases"] = n
     stats["exhaustive"] = True
     stats["exhaustive_space"] = f"chain length <= {maxlen} x else/no else x all truth assignments x 9 contexts x histories"
+    # exits (break / continue / return) taken from each kind of branch of an inner chain that sits in a loop (directly or in
+    # a called function) inside each kind of branch of an outer chain which still has branches after it
+    n2 = 0
+    for exit_kind in ("break", "continue", "return"):
+        for inner_pos in range(3):            # exit sits in the if / else-if / else branch of the inner chain
+            for outer_pos in range(3):        # the loop sits in the if / else-if / else branch of the outer chain
+                for via_call in (False, True):
+                    for hist in (0, 1):
+                        ex = ("return", G.num(5)) if exit_kind == "return" else (exit_kind,)
+                        if exit_kind == "return" and not via_call:
+                            continue
+                        inner_branches = [(G.bin_("==", G.var("গ"), G.num(9)), [("print", G.s("ভিতর-ক"))]), (G.bin_("==", G.var("গ"), G.num(8)), [("print", G.s("ভিতর-খ"))])]
+                        inner_else = [("print", G.s("ভিতর-গ"))]
+                        trig = G.bin_("==", G.var("গ"), G.num(2))
+                        if inner_pos == 0:
+                            inner_branches[0] = (trig, [("print", G.s("বের")), ex])
+                        elif inner_pos == 1:
+                            inner_branches[1] = (trig, [("print", G.s("বের")), ex])
+                        else:
+                            inner_branches = [(G.bin_("!=", G.var("গ"), G.num(2)), [("print", G.s("ভিতর-ক"))])]
+                            inner_else = [("print", G.s("বের")), ex]
+                        loop = [("decl", "গ", G.num(0)),
+                                ("loop", [("assign", "গ", [], G.bin_("+", G.var("গ"), G.num(1))), ("if", [(G.bin_(">", G.var("গ"), G.num(3)), [("break",)])], None),
+                                          ("if", inner_branches, inner_else), ("print", G.var("গ"))]),
+                                ("print", G.s("লুপের পরে"))]
+                        pre = []
+                        if via_call:
+                            pre = [("func", "চালাও", [], loop + [("return", G.num(1))])]
+                            inside = [("print", G.call("চালাও"))]
+                        else:
+                            inside = loop
+                        if outer_pos == 0:
+                            outer = ("if", [(G.b(True), inside), (G.b(True), [("print", G.s("বাইরে-খ"))])], [("print", G.s("বাইরে-গ"))])
+                        elif outer_pos == 1:
+                            outer = ("if", [(G.b(False), [("print", G.s("বাইরে-ক"))]), (G.b(True), inside), (G.b(True), [("print", G.s("বাইরে-খ২"))])], [("print", G.s("বাইরে-গ"))])
+                        else:
+                            outer = ("if", [(G.b(False), [("print", G.s("বাইরে-ক"))])], inside)
+                        prog = pre + list(HISTORY[hist]) + [outer, ("print", G.s("চেইনের পরে")), ("if", [(G.b(False), [])], [("print", G.s("পরের else"))])]
+                        out.append(prog_case("exit-from-branch", prog, info={"exit": exit_kind, "inner": inner_pos, "outer": outer_pos, "call": via_call, "history": hist}))
+                        n2 += 1
+    stats["exit_from_branch_cases"] = n2
     # non-boolean condition
     for c in [G.num(1), G.s("x"), G.lst(), G.call("_টাইপ", G.num(1))]:
         out.append(prog_case("non-boolean-condition", [("print", G.s("a")), ("if", [(G.b(False), []), (c, [("print", G.s("b"))])], None), ("print", G.s("c"))]))
